@@ -7,6 +7,10 @@ for pid in sys.argv[1:]:
     p=props[base]
     pt=f"{p['title']}\n{p['statement']}\nQuantified over: {p['quantifier']['text']}\nRelevant source files: {', '.join(p['anchors']['files'])}"
     wt=f"/tmp/seed_{tag}"
+    import glob
+    prev=[json.load(open(m)).get('summary','')[:400] for m in sorted(glob.glob(f'/verif/seeded/{base}*/meta.json'))]
+    if prev:
+        pt += "\n\nOther engineers have ALREADY seeded the following changes for this property - choose a DIFFERENT mechanism and a different part of the relevant code (they are listed only so that you do not repeat them):\n" + "\n".join(f"  - {x}" for x in prev)
     txt = tmpl.replace('{wt}',wt).replace('{ptext}',pt).replace('{pid}',base)
     open(f"/verif/checklib/prompts/seed/{tag}.txt","w").write(txt); os.makedirs("/tmp/seedprompts",exist_ok=True); open(f"/tmp/seedprompts/{tag}.txt","w").write(txt)
     os.system(f"git -C /repo worktree add -q {wt} HEAD 2>&1 | tail -1")
